@@ -12,8 +12,15 @@ theorem valueOf_int2 (i : Int) (h : Int64 i) : valueOf (Spec.int 2 i) = .int i :
 theorem valueOf_int10 (i : Int) (h : Int64 i) : valueOf (Spec.int 10 i) = .int i := by
   simp [Spec.int, valueOf, parseIntLoose, parseInt64_encodeInteger i h]
 
-theorem valueOf_bool (b : Bool) : valueOf (Spec.bool b) = .bool b := by
-  cases b <;> decide
+theorem valueOf_bool (tt : UInt8) (htt : tt ≠ 0) (b : Bool) : valueOf (Spec.bool tt b) = .bool b := by
+  cases b
+  · simp [Spec.bool, valueOf, parseIntLoose, parseInt64, beNat]
+  · have h0 : tt.toNat ≠ 0 := fun h => htt (UInt8.toNat_inj.mp (by simpa using h))
+    have h1 := tt.toNat_lt
+    simp only [Spec.bool, valueOf, parseIntLoose, parseInt64, beNat, if_true, List.length_cons, List.length_nil,
+      List.foldl_cons, List.foldl_nil]
+    simp
+    split <;> simp <;> omega
 
 theorem valueOf_octet (s : Bytes) : valueOf (Spec.octet s) = .str s := by
   simp [Spec.octet, valueOf]
@@ -21,7 +28,7 @@ theorem valueOf_octet (s : Bytes) : valueOf (Spec.octet s) = .str s := by
 @[simp] theorem isKind_int (t : Nat) (i : Int) : isKind (Spec.int t i) 0 false (some t) = true := by
   simp [Spec.int, isKind, Node.cls, Node.constructed, Node.tag]
 @[simp] theorem isKind_octet (s : Bytes) : isKind (Spec.octet s) 0 false (some 4) = true := rfl
-@[simp] theorem isKind_bool (b : Bool) : isKind (Spec.bool b) 0 false (some 1) = true := rfl
+@[simp] theorem isKind_bool (tt : UInt8) (b : Bool) : isKind (Spec.bool tt b) 0 false (some 1) = true := rfl
 @[simp] theorem isKind_seq (ks : List Node) : isKind (Spec.seq ks) 0 true (some 16) = true := rfl
 @[simp] theorem isKind_set (ks : List Node) : isKind (Spec.set ks) 0 true (some 17) = true := rfl
 
